@@ -344,6 +344,9 @@ func buildExtractCountFromCounterValuePath(counterValuePath string) ExtractInt64
 		if err != nil {
 			return 0, fmt.Errorf("failed to parse raw counter value: %w", err)
 		}
+		if parsed < 0 {
+			return 0, fmt.Errorf("negative counter value: %d", parsed)
+		}
 		return parsed, nil
 	}
 }
